@@ -9,7 +9,7 @@ EXPLANATION = ('Ghost hash log: every hash_object.update(...) of the producers (
                'of that byte string (AX-SHA1).')
 ASSUMPTIONS = [
     'AX-SHA1: hashlib.new("sha1") is SHA-1 and incremental update = hash of the concatenation; collision resistance ("differs whenever a sample differs") is assumed',
-    'routes under contract: NumPy and regular SEG-Y (either reader); the patch of bytes 960..980 (write_hash), the accessor and the re-blocker copy are not yet under contract',
+    'routes under contract: NumPy and regular SEG-Y (either reader); write_hash (20 digest bytes at offset 960) and the flow of the digest through run() are under contract; get_source_data_hash is a plain slice of the header bytes; re-blocker copy: bounded stage of C12',
 ]
 TRUSTED = []
 
